@@ -65,7 +65,7 @@ fn ts_demand_active_pdu() -> PDU {
         message: component![
             "shareId" => U32::LE(0),
             "lengthSourceDescriptor" => DynOption::new(U16::LE(0), |length| MessageOption::Size("sourceDescriptor".to_string(), length.inner() as usize)),
-            "lengthCombinedCapabilities" => DynOption::new(U16::LE(0), |length| MessageOption::Size("capabilitySets".to_string(), length.inner() as usize - 4)),
+            "lengthCombinedCapabilities" => DynOption::new(U16::LE(0), |length| MessageOption::Size("capabilitySets".to_string(), (length.inner() as usize).saturating_sub(4))),
             "sourceDescriptor" => Vec::<u8>::new(),
             "numberCapabilities" => U16::LE(0),
             "pad2Octets" => U16::LE(0),
@@ -88,7 +88,7 @@ fn ts_confirm_active_pdu(share_id: Option<u32>, source: Option<Vec<u8>>, capabil
             "shareId" => U32::LE(share_id.unwrap_or(0)),
             "originatorId" => Check::new(U16::LE(0x03EA)),
             "lengthSourceDescriptor" => DynOption::new(U16::LE(default_source.len() as u16), |length| MessageOption::Size("sourceDescriptor".to_string(), length.inner() as usize)),
-            "lengthCombinedCapabilities" => DynOption::new(U16::LE(default_capabilities_set.length() as u16 + 4), |length| MessageOption::Size("capabilitySets".to_string(), length.inner() as usize - 4)),
+            "lengthCombinedCapabilities" => DynOption::new(U16::LE(default_capabilities_set.length() as u16 + 4), |length| MessageOption::Size("capabilitySets".to_string(), (length.inner() as usize).saturating_sub(4))),
             "sourceDescriptor" => default_source,
             "numberCapabilities" => U16::LE(default_capabilities_set.inner().len() as u16),
             "pad2Octets" => U16::LE(0),
@@ -120,7 +120,7 @@ fn share_data_header(share_id: Option<u32>, pdu_type_2: Option<PDUType2>, messag
             "shareId" => U32::LE(share_id.unwrap_or(0)),
             "pad1" => 0 as u8,
             "streamId" => 1 as u8,
-            "uncompressedLength" => DynOption::new(U16::LE(default_message.length() as u16 + 18), | size | MessageOption::Size("payload".to_string(), size.inner() as usize - 18)),
+            "uncompressedLength" => DynOption::new(U16::LE(default_message.length() as u16 + 18), | size | MessageOption::Size("payload".to_string(), (size.inner() as usize).saturating_sub(18))),
             "pduType2" => pdu_type_2.unwrap_or(PDUType2::Pdutype2ArcStatusPdu) as u8,
             "compressedType" => 0 as u8,
             "compressedLength" => U16::LE(0),
@@ -135,7 +135,7 @@ fn share_data_header(share_id: Option<u32>, pdu_type_2: Option<PDUType2>, messag
 fn share_control_header(pdu_type: Option<PDUType>, pdu_source: Option<u16>, message: Option<Vec<u8>>) -> Component {
     let default_message = message.unwrap_or(vec![]);
     component![
-        "totalLength" => DynOption::new(U16::LE(default_message.length() as u16 + 6), |total| MessageOption::Size("pduMessage".to_string(), total.inner() as usize - 6)),
+        "totalLength" => DynOption::new(U16::LE(default_message.length() as u16 + 6), |total| MessageOption::Size("pduMessage".to_string(), (total.inner() as usize).saturating_sub(6))),
         "pduType" => U16::LE(pdu_type.unwrap_or(PDUType::PdutypeDemandactivepdu) as u16),
         "PDUSource" => Some(U16::LE(pdu_source.unwrap_or(0))),
         "pduMessage" => default_message
